@@ -199,6 +199,44 @@ theorem disconnect_releases_all (tbl : List (α × α)) (s : St α) (_h : Reacha
 
 end
 
+section
+variable {α : Type} [DecidableEq α]
+
+/-- … and then nobody is left waiting: with `no_lost_request`, after that `disconnect()` *every* request ever queued —
+not only those found in the three containers — has its caller answered, released or timed out.  (Hypotheses: the
+workers hold nothing at that moment — no entry between `txq` and filing, none between `active_requests` and its
+event, none between `pending` and `txq`; what they hold otherwise is released by `disconnect()`'s final drain, which
+the shutdown model covers.) -/
+theorem disconnect_leaves_nobody_waiting (tbl : List (α × α)) (s : St α) (h : Reachable tbl true s)
+    (ht : s.txTest = none) (hr : s.relHold = []) (h1 : s.txHold = none) (h2 : s.rxSet = none) (h3 : s.rxHold = []) :
+    ∃ s', run tbl true s (drainLabels s) 0 = .ok s' ∧
+      ∀ i, i < s'.nextId → i ∈ s'.delivered.map (·.1.id) ∨ i ∈ s'.released ∨ i ∈ s'.timedOut := by
+  obtain ⟨s', hrun, hall⟩ := drain_all (tbl := tbl) (locked := true) s ht hr
+  refine ⟨s', hrun, ?_⟩
+  have hreach := reachable_of_run (drainLabels s) s s' 0 h hrun
+  have hacc := (reachable_acc hreach).acc
+  have hk := run_close_kept (drainLabels s) s s' 0 (drainLabels_close s) hrun
+  obtain ⟨ha, hp, hq, hrel, _⟩ := hall
+  intro i hi
+  have := hacc i hi
+  simp only [whereabouts, ha, hp, hq, hrel, hk.txHold, hk.rxSet, hk.rxHold, h1, h2, h3, List.map_nil,
+    Option.toList_none, List.nil_append, List.mem_append] at this
+  exact this
+
+end
+
+/-- non-vacuity of `disconnect_leaves_nobody_waiting`: its hypotheses hold in a state with a filed (and timed-out), a
+parked and a queued request, and afterwards all three callers are accounted for -/
+example : checkRun request2reply true
+    [.put (rd "m:p"), .put (rd "m:p"), .put (rd "m:q"), .txGet, .txTest false, .txApply, .txSend, .txGet, .txTest true,
+     .txApply, .timeout 0]
+    (fun s => s.txTest.isNone && s.relHold.isEmpty && s.txHold.isNone && s.rxSet.isNone && s.rxHold.isEmpty
+      && s.nextId == 3 && s.active.length == 1 && s.pending.length == 1 && s.txq.length == 1 &&
+      match run request2reply true s (drainLabels s) 0 with
+      | .ok s' => [0, 1, 2].all (fun i => s'.released.contains i || s'.timedOut.contains i)
+      | .error _ => false) = true := by
+  decide +kernel
+
 /-- non-vacuity: a concrete reachable state with one request filed and transmitted, one parked, one queued -/
 example : checkRun request2reply true
     [.put (rd "m:p"), .put (rd "m:p"), .put (rd "m:q"), .txGet, .txTest false, .txApply, .txSend, .txGet, .txTest true, .txApply]
